@@ -74,6 +74,10 @@ def gen_cases(tier, seed):
         s = env.seed_for(seed, ID, tier, "retry_shared", i)
         r = random.Random(env.seed_for(s, "descriptor"))
         out.append({"seed": s, "mode": "retry_shared", "n": r.randint(2, 7), "W": r.choice([1, 2, 4]), "sched": r.choice(["default", "random"]), "attempts": r.choice([2, 3, 4, 7])})
+    for i in range(max(16, n // 60)):
+        s = env.seed_for(seed, ID, tier, "retry_unpack", i)
+        r = random.Random(env.seed_for(s, "descriptor"))
+        out.append({"seed": s, "mode": "retry_unpack", "n": 4, "W": r.choice([1, 2, 4]), "sched": r.choice(["default", "random"]), "attempts": r.choice([2, 3, 4, 7])})
     # "at most k + max_workers calls fail" for every preemption of the worker whose failure crosses the limit (vmon/preempt.py): it is held at
     # every instruction of its failure bookkeeping while a dozen more failing calls are ready
     combos = [(me, W, sc) for me in (0, 1, 2, 5) for W in (2, 3, 4) for sc in ("default", "random")]
@@ -83,6 +87,49 @@ def gen_cases(tier, seed):
         out.append({"seed": env.seed_for(seed, ID, tier, "errlimit", me, W, sc), "mode": "preempt_errlimit", "max_errors": me, "W": W, "sched": sc, "n": 12, "ncalls": 12,
                     "shape": "inflight" if (j + seed) % 2 else "independent"})
     return out
+
+
+def run_retry_unpack(desc):
+    """`plan.unpack` of a re-iterable whose iteration fails transiently (a cursor that has to reconnect): the unpack call is a call like any
+    other - with retry=n it is attempted until it succeeds, at most n times, and an eventual success counts for its dependents."""
+    import uberjob
+
+    rng = random.Random(desc["seed"])
+    n_att = desc["attempts"]
+    j = rng.randint(0, n_att + 1)  # iteration fails its first j times
+    iters = []
+
+    class Flaky:
+        def __iter__(self):
+            iters.append(1)
+            if len(iters) <= j:
+                raise ConnectionError(f"iteration attempt {len(iters)} failed")
+            return iter((1, 2, 3))
+
+    plan = uberjob.Plan()
+    src = plan.call(Flaky)
+    a, b, c = plan.unpack(src, 3)
+    out = plan.call(lambda x, y, z: x + y + z, a, b, c)
+    exc = got = None
+    try:
+        got = uberjob.run(plan, output=out, retry=n_att, max_workers=desc["W"], scheduler=desc["sched"], progress=None)
+    except BaseException as e:
+        exc = e
+    bad = None
+    if j < n_att:
+        if exc is not None:
+            bad = f"iterating the unpacked value fails its first {j} time(s) and retry={n_att}: run raised {exc!r} (cause {exc.__cause__!r}) after {len(iters)} attempt(s)"
+        elif got != 6 or len(iters) != j + 1:
+            bad = f"unpack with {j} transient failures, retry={n_att}: result {got!r} after {len(iters)} iteration attempts (expected 6 after {j + 1})"
+    else:
+        if exc is None:
+            bad = f"iteration fails {j} times, retry={n_att} exhausted, yet run returned {got!r}"
+        elif len(iters) != n_att:
+            bad = f"iteration fails {j} times, retry={n_att}: attempted {len(iters)} times (exactly {n_att} expected)"
+    r_ = {"status": "ok", "counters": {"retry_unpack_runs": 1}, "nontrivial": j > 0, "sig": f"retry_unpack|{n_att}|{j}|{desc['W']}"}
+    if bad:
+        r_.update(status="violation", mechanism="limits-retry", detail=f"[flaky iteration behind plan.unpack] {bad}")
+    return r_
 
 
 def run_retry_callables(desc):
@@ -243,6 +290,8 @@ def run_case(desc):
         from vmon import preempt
 
         return preempt.enumerate_fail_limit(desc)
+    if mode == "retry_unpack":
+        return run_retry_unpack(desc)
     if mode == "retry_shared":
         return run_retry_shared(desc)
     if mode == "retry_callables":
